@@ -955,7 +955,7 @@ func main() {
 		{"GenClose", func() string {
 			return effectOrder(repo, bs, "Close", "closeOrder", [][2]string{
 				{"guard", "b.isClosed()"}, {"cancel", "b.cancel()"}, {"unregister", "b.closeFunc()"},
-				{"stop", "Replicator().Stop()"}, {"cacheclose", "b.Cache().Close()"}})
+				{"stop", "Replicator().Stop()"}, {"unsubscribe", "b.UnsubscribeAll()"}, {"cacheclose", "b.Cache().Close()"}})
 		}},
 		{"GenConnect", func() string {
 			return effectOrder(repo, "pubsub/oneonone/channel.go", "Connect", "connectOrder", [][2]string{
